@@ -13,7 +13,8 @@ from harness.storelib import Interner, c_otree, dump_tree, tree_printable
 
 PROP = "C09"
 PARALLEL = True
-RULE = ("stored graphs (random, unique node ids, N,E<=6, every property kind incl. var-length and masked, zarr 2/3) x node/edge property "
+RULE = ("lineage graphs of 20-48 nodes with sparse ids 1000*t+label, divisions/merges, node masks dropping nodes of degree >= 2; "
+        "stored graphs (random, unique node ids, N,E<=6, every property kind incl. var-length and masked, zarr 2/3) x node/edge property "
         "subsets (all subsets when <=3 names, else sampled) x node mask x edge mask in {None, all-true, all-false, every mask for N,E<=4, "
         "random}; non-trivial = some mask or name subset given; distinct by structural input")
 EXHAUSTIVE_BLOCKS = ["a fixed 4-node/4-edge graph with a fixed, a masked 2-D and a var-length property: all 16 node masks x all 16 edge masks (+None)"]
@@ -52,6 +53,9 @@ def generate(rng: random.Random, tier: str):
         for nm in masks_for(rng, 4):
             for em in masks_for(rng, 4):
                 yield {"kind": "build", "fmt": fmt, "nn": None, "en": None, "nm": nm, "em": em, "validate": True, **g}
+    # larger graphs with sparse ids (track-style ids 1000*t + label): node masks that drop nodes of degree >= 2
+    for i in range(10 if tier == "quick" else 120):
+        yield lineage_case(rng)
     for i in range(60 if tier == "quick" else 700):
         g = gg.rand_graph(rng, axes=False)
         n, e = g["nids"]["shape"][0], g["eids"]["shape"][0]
@@ -65,6 +69,30 @@ def generate(rng: random.Random, tier: str):
         rng.shuffle(combos)
         for nn, en, nm, em in combos[: (12 if tier == "quick" else 30)]:
             yield {"kind": "build", "fmt": fmt, "nn": nn, "en": en, "nm": nm, "em": em, "validate": rng.random() < 0.7, **g}
+
+
+def lineage_case(rng):
+    T, L = rng.randint(5, 8), rng.randint(4, 6)
+    ids = [1000 * t + l for t in range(T) for l in range(1, L + 1)]
+    edges = []
+    for t in range(T - 1):
+        for l in range(1, L + 1):
+            edges.append([1000 * t + l, 1000 * (t + 1) + l])
+            if rng.random() < 0.25:  # division / merge
+                edges.append([1000 * t + l, 1000 * (t + 1) + (l % L) + 1])
+    n, e = len(ids), len(edges)
+    deg = {i: 0 for i in ids}
+    for a, b in edges:
+        deg[a] += 1
+        deg[b] += 1
+    nm = [not (deg[i] >= 2 and rng.random() < 0.15) for i in ids]
+    em = rng.choice([None, [rng.random() < 0.8 for _ in range(e)]])
+    dt = rng.choice(["uint32", "int64", "uint64"])
+    g = {"nids": {"dtype": dt, "shape": [n], "data": ids}, "eids": {"dtype": dt, "shape": [e, 2], "data": [x for r in edges for x in r]},
+         "nprops": {"t": {"values": {"dtype": "float32", "shape": [n], "data": [float(i // 1000) for i in ids]}, "missing": None}},
+         "eprops": {"w": {"values": {"dtype": "int32", "shape": [e], "data": list(range(e))}, "missing": None}},
+         "md": {"directed": True, "axes": None}}
+    return {"kind": "build", "fmt": rng.choice([2, 3]), "nn": None, "en": None, "nm": nm, "em": em, "validate": True, **g}
 
 
 def c_mask(m):
